@@ -384,6 +384,17 @@ func (t *LoggingTransport) Connect(ctx context.Context) (Connection, error) {
 	return &loggingConn{delegate: delegate, w: t.Writer}, nil
 }
 
+// SupportsProtocolVersion implements [ProtocolVersionSupporter] by asking the
+// underlying transport: logging does not change which protocol versions a
+// transport can serve. If the underlying transport does not implement
+// [ProtocolVersionSupporter], every version is supported.
+func (t *LoggingTransport) SupportsProtocolVersion(version string) bool {
+	if pvs, ok := t.Transport.(ProtocolVersionSupporter); ok {
+		return pvs.SupportsProtocolVersion(version)
+	}
+	return true
+}
+
 type loggingConn struct {
 	delegate Connection
 
